@@ -1,5 +1,6 @@
 import ScionVerif.Model.Layout
 import ScionVerif.Model.Access
+import ScionVerif.Model.Packet
 import ScionVerif.Lemmas.Bits
 /-!
 # Lemmas about the size computations of Model/Layout.lean (C02) 
@@ -1286,3 +1287,430 @@ theorem stdDataSize_swap01 (a b c : Nat) : stdDataSize b a c = stdDataSize a b c
   unfold stdDataSize; rw [h1, h2]
 
 end ScionVerif.Access
+
+/-! # Checksum: the digest of `scion/checksum.rs` computes the RFC 1071 sum, for every slice alignment -/
+
+namespace ScionVerif.Checksum
+open ScionVerif
+
+theorem sum_cons (x : Nat) (l : List Nat) : sum (x :: l) = x + sum l := by
+  unfold sum
+  have : ∀ (l : List Nat) (a : Nat), l.foldl (· + ·) a = a + l.foldl (· + ·) 0 := by
+    intro l
+    induction l with
+    | nil => intro a; simp
+    | cons y ys ih => intro a; simp only [List.foldl_cons]; rw [ih (a + y), ih (0 + y)]; omega
+  simp only [List.foldl_cons]
+  rw [this l (0 + x)]; omega
+
+theorem sum_nil : sum [] = 0 := rfl
+
+/-- sums of the bytes at even / odd positions -/
+def eo : Bytes → Nat × Nat
+  | [] => (0, 0)
+  | a :: r => (a.toNat + (eo r).2, (eo r).1)
+
+theorem eo_cons2 (a b : UInt8) (r : Bytes) : eo (a :: b :: r) = (a.toNat + (eo r).1, b.toNat + (eo r).2) := by
+  simp [eo]
+
+theorem two_step {P : Bytes → Prop} (h0 : P []) (h1 : ∀ a, P [a]) (h2 : ∀ a b r, P r → P (a :: b :: r)) :
+    ∀ d, P d := by
+  have : ∀ d, P d ∧ ∀ x, P (x :: d) := by
+    intro d
+    induction d with
+    | nil => exact ⟨h0, h1⟩
+    | cons y ys ih => exact ⟨ih.2 y, fun x => h2 x y ys ih.1⟩
+  exact fun d => (this d).1
+
+theorem sumBE_eo (d : Bytes) : sumBE d = 256 * (eo d).1 + (eo d).2 := by
+  induction d using two_step with
+  | h0 => rfl
+  | h1 a => simp [sumBE, wordsBE, eo, sum_cons, sum_nil]; omega
+  | h2 a b r ih =>
+    unfold sumBE at ih ⊢
+    rw [wordsBE, sum_cons, ih, eo_cons2]; simp only []; omega
+
+theorem pairs_eo (d : Bytes) : (pairsLE d).2 + sum (pairsLE d).1 = (eo d).1 + 256 * (eo d).2 := by
+  induction d using two_step with
+  | h0 => rfl
+  | h1 a => simp [pairsLE, eo, sum_nil]
+  | h2 a b r ih => rw [pairsLE, eo_cons2]; simp only [sum_cons]; omega
+
+theorem eo_bound (d : Bytes) : (eo d).1 ≤ 255 * ((d.length + 1) / 2) ∧ (eo d).2 ≤ 255 * (d.length / 2) := by
+  induction d using two_step with
+  | h0 => simp [eo]
+  | h1 a => have := a.toNat_lt; simp [eo]; omega
+  | h2 a b r ih =>
+    have := a.toNat_lt; have := b.toNat_lt
+    rw [eo_cons2]; simp only [List.length_cons]; omega
+
+theorem eo_append_even (a b : Bytes) (h : a.length % 2 = 0) :
+    eo (a ++ b) = ((eo a).1 + (eo b).1, (eo a).2 + (eo b).2) := by
+  induction a using two_step with
+  | h0 => simp [eo]
+  | h1 x => simp at h
+  | h2 x y r ih =>
+    have hr : r.length % 2 = 0 := by simp only [List.length_cons] at h; omega
+    simp only [List.cons_append]
+    rw [eo_cons2, eo_cons2, ih hr]; simp only []
+    congr 1 <;> omega
+
+theorem sumBE_append_even (a b : Bytes) (h : a.length % 2 = 0) : sumBE (a ++ b) = sumBE a + sumBE b := by
+  rw [sumBE_eo, sumBE_eo, sumBE_eo, eo_append_even a b h]; simp only []; omega
+
+/-! ## folding -/
+
+theorem fold16_props (x : Nat) (h : x < U32) :
+    fold16 x ≤ 65535 ∧ fold16 x % 65535 = x % 65535 ∧ (fold16 x = 0 ↔ x = 0) := by
+  unfold U32 at h
+  unfold fold16
+  simp only []
+  omega
+
+theorem swap16_props (s : Nat) (h : s ≤ 65535) :
+    swap16 s ≤ 65535 ∧ swap16 s % 65535 = (256 * s) % 65535 ∧ (swap16 s = 0 ↔ s = 0) ∧ swap16 (swap16 s) = s := by
+  unfold swap16
+  omega
+
+/-- the running digest `acc` represents the one's-complement sum `S` -/
+def Rep (acc S : Nat) : Prop := acc % 65535 = S % 65535 ∧ (acc = 0 ↔ S = 0)
+
+theorem Rep.add {a S b T : Nat} (h1 : Rep a S) (h2 : Rep b T) : Rep (a + b) (S + T) := by
+  unfold Rep at *; omega
+
+theorem Rep.fold {a S : Nat} (h : Rep a S) (ha : a < U32) (hS : S < U32) : fold16 a = fold16 S := by
+  have := fold16_props a ha
+  have := fold16_props S hS
+  unfold Rep at h
+  omega
+
+/-- what one `add_slice` call adds to the digest: a representative of the slice's big-endian word sum,
+    whatever the alignment of the slice -/
+theorem addSlice_spec (acc : Nat) (al : Bool) (d : Bytes) (hlen : d.length ≤ 131072) (hacc : acc + 65535 < U32) :
+    ∃ add, addSlice acc al d = some (acc + add) ∧ add ≤ 65535 ∧ Rep add (sumBE d) := by
+  cases d with
+  | nil => exact ⟨0, by simp [addSlice], by omega, by simp [Rep, sumBE, wordsBE, sum_nil]⟩
+  | cons d0 tl =>
+    have hb := eo_bound (d0 :: tl)
+    have hE := sumBE_eo (d0 :: tl)
+    simp only [List.length_cons] at hb hlen
+    unfold addSlice
+    simp only []
+    cases al with
+    | true =>
+      simp only [if_true]
+      have hp := pairs_eo (d0 :: tl)
+      have hs : 0 + (pairsLE (d0 :: tl)).2 + sum (pairsLE (d0 :: tl)).1 = (eo (d0 :: tl)).1 + 256 * (eo (d0 :: tl)).2 := by omega
+      rw [hs]
+      have hlt : (eo (d0 :: tl)).1 + 256 * (eo (d0 :: tl)).2 < U32 := by unfold U32; omega
+      have hf := fold16_props _ hlt
+      have hw := swap16_props _ hf.1
+      have hn1 : ¬ ((eo (d0 :: tl)).1 + 256 * (eo (d0 :: tl)).2 ≥ U32) := by omega
+      have hn2 : ¬ (acc + swap16 (fold16 ((eo (d0 :: tl)).1 + 256 * (eo (d0 :: tl)).2)) ≥ U32) := by omega
+      simp only [hn1, hn2, if_false]
+      refine ⟨_, rfl, hw.1, ?_⟩
+      unfold Rep
+      rw [hE]
+      omega
+    | false =>
+      simp only [Bool.false_eq_true, if_false]
+      have hp := pairs_eo tl
+      have he : eo (d0 :: tl) = (d0.toNat + (eo tl).2, (eo tl).1) := rfl
+      rw [he] at hb hE
+      simp only [] at hb hE
+      have hs : d0.toNat * 256 + (pairsLE tl).2 + sum (pairsLE tl).1 = sumBE (d0 :: tl) := by rw [hE]; omega
+      rw [hs]
+      have hlt : sumBE (d0 :: tl) < U32 := by rw [hE]; unfold U32; omega
+      have hf := fold16_props _ hlt
+      have hw := swap16_props _ hf.1
+      have hn1 : ¬ (sumBE (d0 :: tl) ≥ U32) := by omega
+      rw [hw.2.2.2]
+      have hn2 : ¬ (acc + fold16 (sumBE (d0 :: tl)) ≥ U32) := by omega
+      simp only [hn1, hn2, if_false]
+      refine ⟨_, rfl, hf.1, ?_⟩
+      unfold Rep
+      omega
+
+
+theorem u8_ofNat_mod (x : Nat) : (UInt8.ofNat (x % 256)).toNat = x % 256 := by
+  simp [UInt8.toNat_ofNat']
+
+theorem sumBE_beBytes8 (v : Nat) :
+    sumBE (beBytes 8 v) = v % 65536 + (v / 65536) % 65536 + (v / 4294967296) % 65536 + (v / 281474976710656) % 65536 := by
+  unfold beBytes sumBE
+  simp only [List.range, List.range.loop, List.map, wordsBE, sum_cons, sum_nil, u8_ofNat_mod]
+  simp only [Nat.reducePow, Nat.reduceSub]
+  omega
+
+theorem sumBE_beBytes4 (v : Nat) : sumBE (beBytes 4 v) = v % 65536 + (v / 65536) % 65536 := by
+  unfold beBytes sumBE
+  simp only [List.range, List.range.loop, List.map, wordsBE, sum_cons, sum_nil, u8_ofNat_mod]
+  simp only [Nat.reducePow, Nat.reduceSub]
+  omega
+
+theorem beBytes_length (k n : Nat) : (beBytes k n).length = k := by simp [beBytes]
+
+theorem Rep.refl (x : Nat) : Rep x x := ⟨rfl, Iff.rfl⟩
+
+theorem addU64_spec (acc v : Nat) (h : acc + 4 * 65535 < U32) :
+    addU64 acc v = some (acc + sumBE (beBytes 8 v)) ∧ sumBE (beBytes 8 v) ≤ 4 * 65535 := by
+  have b := sumBE_beBytes8 v
+  have hU : U32 = 4294967296 := rfl
+  unfold addU64; simp only []; rw [b]
+  have h' : acc + 4 * 65535 < 4294967296 := h
+  have : ¬ (acc + (v % 65536 + v / 65536 % 65536 + v / 4294967296 % 65536 + v / 281474976710656 % 65536) ≥ U32) := by
+    show ¬ (_ ≥ 4294967296); omega
+  simp only [this, if_false]
+  exact ⟨trivial, by omega⟩
+
+theorem addU32_spec (acc v : Nat) (h : acc + 2 * 65535 < U32) :
+    addU32 acc v = some (acc + sumBE (beBytes 4 v)) ∧ sumBE (beBytes 4 v) ≤ 2 * 65535 := by
+  have b := sumBE_beBytes4 v
+  have hU : U32 = 4294967296 := rfl
+  unfold addU32; simp only []; rw [b]
+  have h' : acc + 2 * 65535 < 4294967296 := h
+  have : ¬ (acc + (v % 65536 + v / 65536 % 65536) ≥ U32) := by show ¬ (_ ≥ 4294967296); omega
+  simp only [this, if_false]
+  exact ⟨trivial, by omega⟩
+
+theorem sumBE_bound (d : Bytes) : sumBE d ≤ 65535 * ((d.length + 1) / 2) := by
+  have := sumBE_eo d
+  have := eo_bound d
+  omega
+
+/-- **the digest computes the specified checksum, for every alignment of the three slices** -/
+theorem messageChecksum_eq_spec (dstIa srcIa : Nat) (dstHost srcHost : Bytes) (proto : Nat) (msg : Bytes)
+    (a1 a2 a3 : Bool)
+    (hd : dstHost.length % 2 = 0) (hs : srcHost.length % 2 = 0) (hdl : dstHost.length ≤ 16) (hsl : srcHost.length ≤ 16)
+    (hm : msg.length ≤ 130000) :
+    messageChecksum dstIa srcIa dstHost srcHost proto msg a1 a2 a3
+      = some (specChecksum (pseudoHeader dstIa srcIa dstHost srcHost proto msg.length ++ msg)) := by
+  have hU : U32 = 4294967296 := rfl
+  have hspec : sumBE (pseudoHeader dstIa srcIa dstHost srcHost proto msg.length ++ msg)
+      = sumBE (beBytes 8 dstIa) + sumBE (beBytes 8 srcIa) + sumBE dstHost + sumBE srcHost
+        + sumBE (beBytes 4 msg.length) + sumBE (beBytes 4 proto) + sumBE msg := by
+    unfold pseudoHeader
+    simp only [List.append_assoc]
+    rw [sumBE_append_even _ _ (by rw [beBytes_length]), sumBE_append_even _ _ (by rw [beBytes_length]),
+      sumBE_append_even _ _ hd, sumBE_append_even _ _ hs, sumBE_append_even _ _ (by rw [beBytes_length]),
+      sumBE_append_even _ _ (by rw [beBytes_length])]
+    omega
+  have bd := sumBE_bound dstHost
+  have bs := sumBE_bound srcHost
+  have bm := sumBE_bound msg
+  unfold messageChecksum specChecksum
+  rw [hspec]
+  obtain ⟨e1, c1⟩ := addU64_spec 0 dstIa (by rw [hU]; omega)
+  generalize sumBE (beBytes 8 dstIa) = A at *
+  rw [e1]; simp only [Nat.zero_add]
+  obtain ⟨e2, c2⟩ := addU64_spec A srcIa (by rw [hU]; omega)
+  generalize sumBE (beBytes 8 srcIa) = B at *
+  rw [e2]; simp only []
+  obtain ⟨ad, e3, had, r3⟩ := addSlice_spec (A + B) a1 dstHost (by omega) (by rw [hU]; omega)
+  rw [e3]; simp only []
+  obtain ⟨as_, e4, has, r4⟩ := addSlice_spec (A + B + ad) a2 srcHost (by omega) (by rw [hU]; omega)
+  rw [e4]; simp only []
+  have hml : msg.length % U32 = msg.length := Nat.mod_eq_of_lt (by rw [hU]; omega)
+  rw [hml]
+  obtain ⟨e5, c5⟩ := addU32_spec (A + B + ad + as_) msg.length (by rw [hU]; omega)
+  generalize sumBE (beBytes 4 msg.length) = L at *
+  rw [e5]; simp only []
+  obtain ⟨e6, c6⟩ := addU32_spec (A + B + ad + as_ + L) proto (by rw [hU]; omega)
+  generalize sumBE (beBytes 4 proto) = Q at *
+  rw [e6]; simp only []
+  obtain ⟨am, e7, ham, r7⟩ := addSlice_spec (A + B + ad + as_ + L + Q) a3 msg (by omega) (by rw [hU]; omega)
+  rw [e7]; simp only []
+  generalize sumBE dstHost = D at *
+  generalize sumBE srcHost = S at *
+  generalize sumBE msg = M at *
+  have hrep : Rep (A + B + ad + as_ + L + Q + am) (A + B + D + S + L + Q + M) :=
+    ((((((Rep.refl A).add (Rep.refl B)).add r3).add r4).add (Rep.refl L)).add (Rep.refl Q)).add r7
+  have hlt1 : A + B + ad + as_ + L + Q + am < U32 := by rw [hU]; omega
+  have hlt2 : A + B + D + S + L + Q + M < U32 := by rw [hU]; omega
+  have hfold := hrep.fold hlt1 hlt2
+  have hp := fold16_props _ hlt2
+  unfold finish
+  rw [hfold]
+  congr 1
+  omega
+
+end ScionVerif.Checksum
+
+/-! # Representability: what `wire_valid` accepts fits the wire format -/
+
+namespace ScionVerif.Packet
+open ScionVerif ScionVerif.Layout ScionVerif.Generated.Layout ScionVerif.Generated.AddrType
+
+/-- what the Rust types guarantee about a host address -/
+def HostAddr.WellTyped : HostAddr → Prop
+  | .v4 b => b.length = 4
+  | .v6 b => b.length = 16
+  | .svc a => a < 65536
+  | .unknown id b => id < 256 ∧ b.length ≤ 16
+
+/-- what the SCION header can carry: a 2-bit type id and a length of 4, 8, 12 or 16 bytes whose nibble is
+    not the one of IPv4 (0b0000), IPv6 (0b0011) or service addresses (0b0100) -/
+def HostAddr.Representable : HostAddr → Prop
+  | .unknown id b => id ≤ 3 ∧ (b.length = 4 ∨ b.length = 8 ∨ b.length = 12 ∨ b.length = 16) ∧
+      id * 4 + (b.length / 4 - 1) ≠ 0 ∧ id * 4 + (b.length / 4 - 1) ≠ 3 ∧ id * 4 + (b.length / 4 - 1) ≠ 4
+  | _ => True
+
+theorem host_valid_repr (h : HostAddr) (hw : h.WellTyped) (hv : h.wireValid = .ok ()) : h.Representable := by
+  cases h with
+  | v4 b => trivial
+  | v6 b => trivial
+  | svc a => trivial
+  | unknown id b =>
+    obtain ⟨hid, hlen⟩ := hw
+    unfold HostAddr.wireValid at hv
+    simp only [] at hv
+    split at hv
+    · contradiction
+    rename_i hne
+    split at hv
+    · contradiction
+    rename_i h4
+    split at hv
+    · contradiction
+    rename_i hsame
+    have hne' : b.length ≠ 0 := by
+      intro h0; apply hne; simp [List.eq_nil_of_length_eq_zero h0]
+    have hl : b.length = 4 ∨ b.length = 8 ∨ b.length = 12 ∨ b.length = 16 := by omega
+    have hid3 : id ≤ 3 := by omega
+    refine ⟨hid3, hl, ?_⟩
+    have hsame' := hsame
+    simp only [not_or, Decidable.not_not, HostAddr.nibbleByte] at hsame'
+    obtain ⟨_, hs1, hs2, hs3, _, _⟩ := hsame'
+    have hidc : id = 0 ∨ id = 1 ∨ id = 2 ∨ id = 3 := by omega
+    rcases hidc with rfl | rfl | rfl | rfl <;> rcases hl with h | h | h | h <;>
+      (rw [h] at hs1 hs2 hs3 ⊢; revert hs1 hs2 hs3; decide)
+
+
+/-- a standard path the wire format can carry -/
+def StdPathM.Representable (p : StdPathM) : Prop :=
+  1 ≤ p.segments.length ∧ p.segments.length ≤ 3 ∧
+  (∀ s ∈ p.segments, 1 ≤ s.hops.length ∧ s.hops.length ≤ 63) ∧
+  p.currHop < p.hopCount ∧ p.currHop ≤ 63 ∧ p.currInfo < p.segments.length
+
+def DpPath.Representable : DpPath → Prop
+  | .standard p => p.Representable
+  | .unsupported t d => 3 ≤ t ∧ t < 256 ∧ d.length % 4 = 0
+  | _ => True
+
+def Payload.Representable : Payload → Prop
+  | .scmp m => m.kind = "Unknown" → (scmpRow m.typ).code = none
+  | _ => True
+
+/-- **Representable**: the packet model fits the SCION wire format – written from the format, not from the
+encoder: 16-bit payload length, header length ≤ 255·4 and 4-aligned, 20-bit flow id, 2-bit host type id with a
+4–16 byte address that is not one of the known types, 1–3 segments of 1–63 hop fields with in-range current
+indices that fit their 2- and 6-bit fields, an unsupported path whose type is none of the supported ones, an
+unknown SCMP message whose type is none of the known ones. -/
+def PacketM.Representable (p : PacketM) : Prop :=
+  p.payload.requiredSize p.header.requiredSize ≤ 65535 ∧
+  p.header.requiredSize ≤ 1020 ∧ p.header.requiredSize % 4 = 0 ∧
+  p.header.flowId < 2 ^ 20 ∧
+  p.header.dstHost.Representable ∧ p.header.srcHost.Representable ∧
+  p.header.path.Representable ∧ p.payload.Representable
+
+theorem std_valid_repr (p : StdPathM) (hv : p.wireValid = .ok ()) : p.Representable := by
+  unfold StdPathM.wireValid at hv
+  repeat (split at hv <;> try contradiction)
+  rename_i h1 h2 h3 h4 h5 h6 _ hfind
+  have e3 : StdPathMeta.MAX_SEGMENTS = 3 := by decide
+  have e63 : StdPathMeta.MAX_TOTAL_HOPS = 63 := by decide
+  have e63' : StdPathMeta.MAX_SEGMENT_HOPS = 63 := by decide
+  have hne : p.segments.length ≠ 0 := by
+    intro h0; apply h3; simp [List.eq_nil_of_length_eq_zero h0]
+  refine ⟨by omega, by omega, ?_, by omega, by omega, by omega⟩
+  intro s hs
+  have := List.find?_eq_none.1 hfind s hs
+  simp only [Bool.or_eq_true, decide_eq_true_eq, not_or, Nat.not_lt] at this
+  obtain ⟨ha, hb⟩ := this
+  have : s.hops.length ≠ 0 := by
+    intro h0; apply hb; simp [List.eq_nil_of_length_eq_zero h0]
+  omega
+
+theorem path_valid_repr (p : DpPath) (hw : ∀ t d, p = .unsupported t d → t < 512)
+    (hv : p.wireValid = .ok ()) : p.Representable := by
+  unfold DpPath.wireValid at hv
+  split at hv
+  · contradiction
+  cases p with
+  | standard s => exact std_valid_repr s hv
+  | oneHop i a b => trivial
+  | empty => trivial
+  | unsupported t d =>
+    simp only [] at hv
+    split at hv
+    · contradiction
+    rename_i h4
+    split at hv
+    · contradiction
+    rename_i ht
+    have e0 : PATH_EMPTY = 0 := by decide
+    have e1 : PATH_SCION = 1 := by decide
+    have e2 : PATH_ONEHOP = 2 := by decide
+    refine ⟨by omega, by omega, by omega⟩
+
+/-- the ranges of the Rust field types (`u8`, `u16`, `ArrayVec<[u8;16]>`, `Ipv4Addr` …) -/
+structure PacketM.WellTyped (p : PacketM) : Prop where
+  dst : p.header.dstHost.WellTyped
+  src : p.header.srcHost.WellTyped
+  /-- an unsupported path type is a `PathType` value: a byte, or `256 + k` for the non-canonical `Other(k ≤ 4)` -/
+  ptype : ∀ t d, p.header.path = .unsupported t d → t < 512
+
+theorem payload_valid_repr (p : Payload) (hv : p.wireValid = .ok ()) : p.Representable := by
+  cases p with
+  | raw b => trivial
+  | udp a b c => trivial
+  | scmp m =>
+    unfold Payload.wireValid at hv
+    simp only [] at hv
+    split at hv
+    · contradiction
+    rename_i h
+    intro hk
+    cases hc : (scmpRow m.typ).code with
+    | none => rfl
+    | some c => exfalso; apply h; simp [hk, hc]
+
+/-- whatever the encoder accepts is representable -/
+theorem encode_ok_representable (p : PacketM) (hw : p.WellTyped) (b : Bytes) (h : encode p = .ok b) :
+    p.Representable := by
+  unfold encode at h
+  split at h
+  · contradiction
+  rename_i hv
+  unfold PacketM.wireValid at hv
+  split at hv
+  · contradiction
+  rename_i hh
+  split at hv
+  · contradiction
+  rename_i hp
+  split at hv
+  · contradiction
+  rename_i hsz
+  unfold Header.wireValid at hh
+  split at hh
+  · contradiction
+  rename_i h4
+  split at hh
+  · contradiction
+  rename_i h1020
+  split at hh
+  · contradiction
+  rename_i hflow
+  split at hh
+  · contradiction
+  rename_i hdst
+  split at hh
+  · contradiction
+  rename_i hsrc
+  have e1020 : ScionHeader.MAX_SIZE_BYTES = 1020 := by decide
+  have eflow : CommonHeader.FLOW_ID_RNG.maxUint = 2 ^ 20 - 1 := by decide
+  exact ⟨by omega, by omega, by omega, by omega, host_valid_repr _ hw.dst hdst, host_valid_repr _ hw.src hsrc,
+    path_valid_repr _ hw.ptype hh, payload_valid_repr _ hp⟩
+
+end ScionVerif.Packet
